@@ -1,0 +1,8 @@
+//go:build !verif
+
+package xmss
+
+// verifLeaf is the disabled form of the verification leaf seam (see verif_hooks.go).
+func verifLeaf(hashFunction HashFunction, leaf []uint8, otsAddr *[8]uint32) bool {
+	return false
+}
